@@ -132,6 +132,24 @@ fn format_decimal(n: f64) -> String {
     }
 }
 
+/// ECMAScript ToInt32: truncate toward zero, then wrap modulo 2^32 into the
+/// signed 32-bit range. NaN and the infinities map to 0. (A plain `as i32`
+/// cast saturates instead of wrapping.)
+pub fn to_int32(n: f64) -> i32 {
+    if !n.is_finite() {
+        return 0;
+    }
+    // The float remainder is exact; its magnitude is below 2^32, so it fits
+    // an i64 and the final narrowing cast performs the two's-complement wrap.
+    let wrapped = math::trunc(n) % 4_294_967_296.0;
+    (wrapped as i64) as i32
+}
+
+/// ECMAScript ToUint32: like [`to_int32`], read as an unsigned value.
+pub fn to_uint32(n: f64) -> u32 {
+    to_int32(n) as u32
+}
+
 /// Convert a JavaScript string to a number according to ECMAScript ToNumber.
 ///
 /// The string is first trimmed of leading and trailing whitespace.
